@@ -88,6 +88,15 @@ def casts(x: fp.Real, y: fp.Real) -> fp.Real:
 
 
 @fp.fpy
+def exacts(x: fp.Real, y: fp.Real) -> fp.Real:
+    # an exact rounding of a value the context holds is a rounding like any other: it comes back
+    # unchanged and costs one draw
+    a = x * y
+    b = fp.round_exact(a)
+    return fp.round_exact(b) + x
+
+
+@fp.fpy
 def _plus1(v: fp.Real) -> fp.Real:
     return v + 1
 
@@ -131,7 +140,7 @@ def make_withneg(C):
 
 # name -> number of rounded operations per evaluation
 PROGS = {'chain3': 3, 'loop4': 8, 'root2': 4, 'listy': 6, 'lits': 9, 'aug': 5, 'negabs': 4, 'fused': 2, 'casts': 4,
-         'callee': 3, 'withblk': 3, 'withneg': 3, 'consts': 7}
+         'callee': 3, 'exacts': 4, 'withblk': 3, 'withneg': 3, 'consts': 7}
 # programs made per context by a factory (the stochastic context is the `with` context of the program itself;
 # the caller's context is a deterministic one): name -> maker
 MAKERS = {'withblk': make_withblk, 'withneg': make_withneg}
